@@ -79,25 +79,18 @@ void PoolWakeState::wakeRange(int32_t count) {
   int32_t lastGroup = (count - 1) / groupSize_;
   for (int32_t g = 0; g <= lastGroup && g < numGroups_; ++g) {
     DISPENSO_VERIF_POINT("PwRangeReadMask", this);
-    uint64_t mask = groupStates_[static_cast<size_t>(g)].sleepMask.load(std::memory_order_relaxed);
-    if (g == lastGroup) {
-      int32_t bitsInLastGroup = count - g * groupSize_;
-      if (bitsInLastGroup < 64) {
-        mask &= (uint64_t{1} << bitsInLastGroup) - 1;
-      }
-    }
     auto& waiter = waiterFor(g * groupSize_);
-    if (mask == 0) {
-      // All workers in this group are spinning — epoch bump prevents
-      // them from parking on their next waitOnThread without paying
-      // for a syscall.
+    if (totalSleeping_.load(std::memory_order_relaxed) == 0) {
+      // All workers are spinning — epoch bump prevents them from parking on
+      // their next waitOnThread without paying for a syscall.
       waiter.bump();
     } else {
-      // At least one worker is parked — need a real wake. Wake just
-      // the parked ones (bumpAndWakeN counts).
-      // The group's sleepers share one futex word and the kernel picks which waiters a wake
-      // releases, so waking only as many waiters as there are targeted sleepers can release
-      // non-targeted ones and leave a targeted sleeper parked with work in its ring.
+      // Some worker is parked — need a real wake. The group's sleep mask cannot tell whether a
+      // targeted thread is parked: claimAndWakeOne() clears the bit of the sleeper it claims, but
+      // the group's sleepers share one futex word and the kernel picks which waiter a wake
+      // releases, so the claimed thread can stay parked with its bit cleared. For the same reason
+      // waking only as many waiters as there are targeted sleepers can release non-targeted ones
+      // and leave a targeted sleeper parked with work in its ring.
       waiter.bumpAndWakeAll();
     }
   }
@@ -163,22 +156,13 @@ bool PoolWakeState::cascadeWakeSeed(int32_t count) {
   // fire when threads are actually sleeping.
   for (int32_t g = 0; g <= lastGroup; ++g) {
     DISPENSO_VERIF_POINT("PwSeedReadMask", this);
-    uint64_t mask = groupStates_[static_cast<size_t>(g)].sleepMask.load(std::memory_order_relaxed);
-    if (g == lastGroup) {
-      int32_t bitsInLastGroup = count - g * groupSize_;
-      if (bitsInLastGroup < 64) {
-        mask &= (uint64_t{1} << bitsInLastGroup) - 1;
-      }
-    }
-    auto& waiter = waiterFor(g * groupSize_);
-    if (mask == 0) {
-      waiter.bump();
-    } else {
-      // The group's sleepers share one futex word and the kernel picks which waiters a wake
-      // releases, so waking only as many waiters as there are targeted sleepers can release
-      // non-targeted ones and leave a targeted sleeper parked with work in its ring.
-      waiter.bumpAndWakeAll();
-    }
+    // The group's sleep mask cannot be used to skip the futex wake: claimAndWakeOne() clears the
+    // bit of the sleeper it claims, but the group's sleepers share one futex word and the kernel
+    // picks which waiter a wake releases, so the claimed thread can stay parked with its bit
+    // cleared (and the released one parks again with its own bit set). A targeted thread whose
+    // bit reads 0 may therefore be parked with work in its ring. For the same reason waking only
+    // as many waiters as there are targeted sleepers can release non-targeted ones.
+    waiterFor(g * groupSize_).bumpAndWakeAll();
   }
   return true;
 }
